@@ -316,8 +316,15 @@ def check_call(case, rec):
         sn.verify("CondSRF.__call__")
         sn.add("returned_field", f1)
         sn.add("krige_field", k["field"]) if "field" in k.field_names else None
-        _call(cs, seed=2, store=["f2", "r2", "k2"], _tags=tags)
-        sn.verify("second CondSRF.__call__ with new store names", kind="stored_field_modified")
+        # every array the object holds after the first call (raw field, raw kriging field, kriging variance) stays as it is,
+        # whatever a later realisation stores or does not store
+        for nm_ in cs.field_names:
+            sn.add("stored_" + nm_, cs[nm_])
+        for nm_ in k.field_names:
+            sn.add("stored_krige_" + nm_, k[nm_])
+        store2 = [["f2", "r2", "k2"], ["real0", False, False], "only_field", False, ["f2", False, "k2"], [False, "r2", False]][case["method"] % 6]
+        _call(cs, seed=2, store=store2, _tags=tags)
+        sn.verify(f"second CondSRF.__call__ with store={store2!r}", kind="stored_field_modified")
         _call(cs, pos, seed=3, _tags=tags)
         sn.verify("third CondSRF.__call__ (same pos passed again)", kind="stored_field_modified")
     elif entry == "field_call":
